@@ -21,12 +21,14 @@ EXPLANATION = (
     "(can_run, readiness) do not depend on the keyed maps' iteration order; a witness shows decision outcomes DO, i.e. "
     "replay relies on FxHash/hashbrown iteration being deterministic, which is not modelled. Compiled end-to-end "
     "simulations: small Hydro programs compiled by the real pipeline are replayed with CompiledSim::fuzz_repro on random "
-    "decision bytes, twice in one process and once in a fresh process; decision log text and outputs must be identical.")
+    "decision bytes, twice in one process and once in a fresh process; decision log text and outputs must be identical, and "
+    "the log's notes (per tick run) and the outcome must be those of some valid decision string of the model of the scheduler "
+    "loop around run_hooks (Sim/E2ELog.v) - the decisions themselves are not observable inside fuzz_repro.")
 
 
 class C38(SimSpec):
     prop_id = "C38"
-    model_vo = ["theories/Sim/Run.vo", "theories/Sim/Log.vo"]
+    model_vo = ["theories/Sim/Run.vo", "theories/Sim/Log.vo", "theories/Sim/E2ELog.vo"]
     props_vo = "theories/Props/C38.vo"
     imports = ("From Coq Require Import List NArith String.\nFrom HV Require Import Sim.Model Sim.Run Sim.Log.\n"
                "Import ListNotations.")
@@ -139,7 +141,7 @@ def main(ctx):
             for case, res, v in bad[:2]:
                 path = vlib.write_replay(c, {"property": c.prop, "kind": "compiled simulation replay differs",
                                              "case": case, "impl": res, "verdict": v})
-                c.violations.append((path, ""))
+                c.violations.append((path, "" if v & 2 else "no-failing-input-found"))
         return orig(c, level, coverage, assumptions, extra)
 
     vlib.finish = fin
